@@ -172,6 +172,35 @@ func (w *world) checkJoin(where string, got error, want []error) {
 	}
 }
 
+// parentCtx builds the context handed to Run and the way the scenario ends it: an explicit cancel, a cancel
+// with a custom cause (Err() is still context.Canceled), or a deadline that the virtual clock reaches
+// (Err() is context.DeadlineExceeded - which no runner or closer returned, so it must not show up in
+// the joined error unless a runner itself returned it).
+func parentCtx(kind string) (ctx context.Context, end func(), cleanup func()) {
+	switch kind {
+	case "deadline":
+		dl := time.Now().Add(100 * time.Hour)
+		c, cancel := context.WithDeadline(context.Background(), dl)
+		return c, func() { time.Sleep(time.Until(dl)) }, cancel
+	case "cause":
+		c, cancel := context.WithCancelCause(context.Background())
+		return c, func() { cancel(errors.New("custom cause of the caller")) }, func() { cancel(nil) }
+	}
+	c, cancel := context.WithCancel(context.Background())
+	return c, cancel, cancel
+}
+
+// deadlineLeaves: the DeadlineExceeded errors that runners themselves returned (they belong in the join).
+func (w *world) deadlineLeaves() []error {
+	var out []error
+	for _, e := range w.events() {
+		if e.kind == "rret" && e.err != nil && errors.Is(e.err, context.DeadlineExceeded) {
+			out = append(out, context.DeadlineExceeded)
+		}
+	}
+	return out
+}
+
 type plan struct {
 	mode string
 }
@@ -197,7 +226,7 @@ func TestCheck(t *testing.T) {
 	rec = mon.Open("C12")
 	defer rec.Close()
 	rec.Note("rule", "a case is one topology run against the real managers in a synctest bubble: 0-4 runners drawn from {nil, error, context.Canceled, wrapped Canceled, block-until-cancel (returning nil / an error / ctx.Err), gate-released (nil / error)} finishing in a seeded order, parent context cancelled or not; for the closer manager additionally 0-4 closers of the four accepted types with seeded durations and errors, grace period unset / generous / exceeded, Close before / during / after Run (repeated, concurrent), AddCloser during the run and AddCloser parked at its decision point while Run enters the closing phase, unsupported closer types. The sequence-stamped event log is judged offline. Non-trivial = at least one runner or closer; distinct = distinct topology description.")
-	rec.Note("require", []string{"runner.first_return_cancels_others", "runner.parent_cancel", "closer.fatal_fired", "closer.fatal_not_fired", "closer.close_during_run", "closer.close_before_run", "closer.concurrent_close", "closer.addcloser_during_run", "placed.addcloser_parked", "closer.unsupported_type_rejected", "join.errors_checked", "racing.addcloser_accepted", "racing.addcloser_rejected"})
+	rec.Note("require", []string{"runner.first_return_cancels_others", "runner.parent_cancel", "closer.fatal_fired", "closer.fatal_not_fired", "closer.close_during_run", "closer.close_before_run", "closer.concurrent_close", "closer.addcloser_during_run", "placed.addcloser_parked", "closer.unsupported_type_rejected", "join.errors_checked", "parent_end.cancel", "parent_end.deadline", "parent_end.cause", "racing.addcloser_accepted", "racing.addcloser_rejected"})
 	ps := plans()
 	rec.Planned(len(ps))
 	for idx, pl := range ps {
@@ -245,7 +274,8 @@ func runRunner(t *testing.T, idx int, rng *mon.RNG) {
 	parentCancel := rng.Chance(1, 4)
 	lateAdd := rng.Chance(1, 3)
 	order := rng.Intn(1 << 16)
-	w := &world{idx: idx, mode: "runner", desc: fmt.Sprintf("runners=%v parentCancel=%v order=%d", ds, parentCancel, order)}
+	parentKind := rng.PickStr("cancel", "deadline", "cause")
+	w := &world{idx: idx, mode: "runner", desc: fmt.Sprintf("runners=%v parentCancel=%v(%s) order=%d", ds, parentCancel, parentKind, order)}
 	rec.Begin(idx, w.mode+" "+w.desc)
 	res := mon.Bubble(t, func() {
 		var runners []concurrency.Runner
@@ -262,7 +292,7 @@ func runRunner(t *testing.T, idx int, rng *mon.RNG) {
 			w.violation("runner/add-before-run-rejected", "Add before Run returned "+err.Error())
 			return
 		}
-		ctx, cancel := context.WithCancel(context.Background())
+		ctx, endParent, cancel := parentCtx(parentKind)
 		defer cancel()
 		runDone := make(chan struct{})
 		var runErr error
@@ -341,7 +371,8 @@ func runRunner(t *testing.T, idx int, rng *mon.RNG) {
 					parentCancelled = true
 					rec.Count("runner.parent_cancel", 1)
 					w.ev("parentcancel", 0, nil)
-					cancel()
+					rec.Count("parent_end."+parentKind, 1)
+					endParent()
 				}
 			} else {
 				g := gated[order%len(gated)]
@@ -392,6 +423,7 @@ func runRunner(t *testing.T, idx int, rng *mon.RNG) {
 				want = append(want, sents[i])
 			}
 		}
+		want = append(want, w.deadlineLeaves()...)
 		w.checkJoin("runner/run", runErr, want)
 		rec.Count("join.errors_checked", 1)
 		if err := m.Run(context.Background()); !errors.Is(err, concurrency.ErrManagerAlreadyStarted) {
@@ -484,13 +516,14 @@ func runCloser(t *testing.T, idx int, rng *mon.RNG, placed bool) {
 		graceMode = rng.PickStr("nil", "generous")
 	}
 	parentCancel := rng.Chance(1, 4)
+	parentKind := rng.PickStr("cancel", "deadline", "cause")
 	lateCloser := !placed && rng.Chance(1, 3)
 	order := rng.Intn(1 << 16)
 	mode := "closer"
 	if placed {
 		mode = "addcloser-placed"
 	}
-	w := &world{idx: idx, mode: mode, desc: fmt.Sprintf("runners=%v closers=%v grace=%s close=%s parentCancel=%v lateCloser=%v order=%d", ds, cd, graceMode, closeWhen, parentCancel, lateCloser, order)}
+	w := &world{idx: idx, mode: mode, desc: fmt.Sprintf("runners=%v closers=%v grace=%s close=%s parentCancel=%v(%s) lateCloser=%v order=%d", ds, cd, graceMode, closeWhen, parentCancel, parentKind, lateCloser, order)}
 	rec.Begin(idx, w.mode+" "+w.desc)
 	res := mon.Bubble(t, func() {
 		var runners []concurrency.Runner
@@ -518,7 +551,7 @@ func runCloser(t *testing.T, idx int, rng *mon.RNG, placed bool) {
 		} else {
 			rec.Count("closer.unsupported_type_rejected", 1)
 		}
-		ctx, cancel := context.WithCancel(context.Background())
+		ctx, endParent, cancel := parentCtx(parentKind)
 		defer cancel()
 
 		var closeMu sync.Mutex
@@ -658,7 +691,8 @@ func runCloser(t *testing.T, idx int, rng *mon.RNG, placed bool) {
 			case parentCancel:
 				parentCancelled = true
 				w.ev("parentcancel", 0, nil)
-				cancel()
+				rec.Count("parent_end."+parentKind, 1)
+				endParent()
 			default:
 				var gated []int
 				for i, sp := range specs {
@@ -681,7 +715,8 @@ func runCloser(t *testing.T, idx int, rng *mon.RNG, placed bool) {
 					} else {
 						parentCancelled = true
 						w.ev("parentcancel", 0, nil)
-						cancel()
+						rec.Count("parent_end."+parentKind, 1)
+						endParent()
 					}
 				}
 			}
@@ -810,6 +845,7 @@ func runCloser(t *testing.T, idx int, rng *mon.RNG, placed bool) {
 				want = append(want, csents[j])
 			}
 		}
+		want = append(want, w.deadlineLeaves()...)
 		w.checkJoin("closer/run", runErr, want)
 		closeMu.Lock()
 		for _, ce := range closeErrs {
